@@ -7,7 +7,7 @@ from harness.props import base
 PROP = {
     "id": "C15",
     "quick_n": 200,
-    "thorough_n": 2500,
+    "thorough_n": 2000,
     "rule": "one program = a valid document (toJson of a random reachable state of a random tree) "
             "followed by single-point structural mutations of it at random positions: delete a "
             "required key, add an unknown key, retype a value to each other JSON type, rename a "
